@@ -83,7 +83,8 @@ def run_case(spec):
     for k in range(spec["n"]):
         w = rng.choice(["synth", "synth", "frag"])
         ws = {"w": w, "seed": spec["seed"] * 131 + k, "ff": "AMBER",
-              "p": {"na_prob": 0.25, "waters": [0, 2, 5], "maxlen": 6, "hydrogens": ["none", "all", "some"]}}
+              "p": {"na_prob": 0.25, "waters": [0, 2, 5], "maxlen": 6, "hydrogens": ["none", "all", "some"],
+                    "alias_prob": 0.25}}
         m = workload.materialise(ws)
         muts = rng.sample(MUTS, rng.choice([0, 1, 1, 2, 2, 3]))
         # incompatible pairs
